@@ -205,6 +205,76 @@ def job_corpus(path):
     return acc
 
 
+def _noid(o):
+    if isinstance(o, dict):
+        return {k: _noid(v) for k, v in o.items() if k != 'id'}
+    if isinstance(o, list):
+        return [_noid(v) for v in o]
+    return o
+
+
+ABORTS = [
+    'Feature: f\n  Scenario: s\n    Given g\n      | a | b |\n      | c |\n  @dangling\n',
+    'Feature: f\n  Scenario Outline: s\n    Given g\n    Examples:\n      | a | b |\n      | c |\n  @t\n  # c\n\n  Scenario: next\n    Given x\n',
+    'Feature: f\n  Scenario: s\n    Given g\n  @bad tag\n  @t2\n  Scenario: t\n',
+    'zzz\n' * 10 + 'Feature: f\n  Scenario: s\n    Given g\n      | a | b |\n      | c |\n  @t\n  @u\n  Scenario: x\n',
+    '@t\n@u\n# c\n',
+]
+AFTER = [
+    'Feature: g\n  Scenario: s\n    Given x\n',
+    '',
+    'Feature: g\n  @a\n  @b\n  Scenario: s\n    Given x\n    @e\n    Examples:\n      | a |\n',
+    '# c\n\nFeature: g\n',
+]
+
+
+@worker
+def job_after_abort(ai):
+    """A parse that is abandoned while look-ahead still has lines buffered (stop-at-first-error / eleventh error / end of file) must not
+    leave lines behind for the next parse - whichever parser runs next in the same process."""
+    acc = Acc()
+    for stop in (True, False):
+        for reuse in (False, True):
+            for gi, good in enumerate(AFTER):
+                from gherkin.parser import Parser
+                from gherkin.errors import ParserError
+                p = Parser()            # the real AST builder: a ragged table is reported when its rule is closed
+                p.stop_at_first_error = stop
+                try:
+                    p.parse(I.StringScanner(ABORTS[ai]))
+                except ParserError:
+                    pass
+                except Exception as e:  # noqa: BLE001
+                    acc.violation('foreign-exception', {'kind': 'text', 'text': ABORTS[ai]}, '%s: %s' % (type(e).__name__, e))
+                case = {'kind': 'after-abort', 'aborted': ABORTS[ai], 'stop': stop, 'same_parser': reuse, 'text': good}
+                if reuse:
+                    p.stop_at_first_error = False
+                    acc.n += 1
+                    acc.validated += 1
+                    acc.nontrivial += 1
+                    want = I.parse(good)
+                    try:
+                        got = ('ok', p.parse(I.StringScanner(good)))
+                    except Exception as e:  # noqa: BLE001
+                        got = ('rejected', str(e))
+                    if got[0] != want[0] or (got[0] == 'ok' and _noid(got[1]) != _noid(want[1])):
+                        acc.violation('delivery-after-abort', case, 'the parser that abandoned a parse does not parse the next document like a fresh parser',
+                                      observed=got[1] if got[0] != 'ok' else 'different AST', expected=want[0])
+                else:
+                    sub = Acc()
+                    check_text(good, sub)
+                    for sig, lst in sub.viol.items():
+                        for v in lst:
+                            acc.violation('delivery-after-abort', case, 'after an abandoned parse in the same process: ' + v['message'], observed=v.get('observed'), expected=v.get('expected'))
+                    acc.n += sub.n
+                    acc.validated += sub.validated
+                    acc.nontrivial += 1
+                    kinds_word = ['FeatureLine', 'TagLine', 'Comment', 'ScenarioLine', 'StepLine']
+                    check_kinds(kinds_word, acc)
+    acc.sample({'aborted': ABORTS[ai], 'then': AFTER[0]})
+    return acc
+
+
 def run(ctx):
     probs = R.selftest()
     ctx.selftest(not probs, 'reference pipeline reproduces the acceptance corpus (%s)' % (probs[:3] or 'ok'))
@@ -220,6 +290,7 @@ def run(ctx):
     r1, r2 = ctx.pick((3, 1), (4, 2))
     ctx.level('look-ahead words r1<=%d r2<=%d' % (r1, r2), [job_la.job(s, r1, r2, False) for s in la_states()])
     ctx.level('look-ahead words as text r1<=2 r2<=1', [job_la.job(s, 2, 1, True) for s in la_states()])
+    ctx.level('abandoned parse, then the next parse', [job_after_abort.job(i) for i in range(len(ABORTS))])
     k_full, k_core = ctx.pick((2, 2), (3, 3))
     DS.run_levels(ctx, __name__, k_full, k_core)
     ctx.notes['lookahead_states'] = la_states()
@@ -229,6 +300,10 @@ def replay(case):
     acc = Acc()
     if case.get('kind') == 'kinds':
         check_kinds(case['kinds'], acc)
+    elif case.get('kind') == 'after-abort':
+        for i, a in enumerate(ABORTS):
+            if a == case['aborted']:
+                acc.merge(job_after_abort(i))
     elif case.get('kind') == 'corpus':
         acc.merge(job_corpus(case['path']))
     else:
